@@ -423,6 +423,7 @@ type cluster struct {
 	// history
 	agreed        map[uint64]string // height -> block signature first delivered anywhere
 	txHeight      map[string]uint64 // tx hash -> height in the agreed chain
+	chainNonce    map[string]uint64 // account -> next nonce expected in the agreed chain
 	submitted     int
 	lateTx        map[string]bool // transactions whose broadcast reached some pool only after they were committed
 	lastFaultStep int
@@ -651,6 +652,29 @@ func (c *cluster) onDelivery(n *onode, ev *pb.CommitEvent) {
 			}
 			c.txHeight[h] = b.height
 		}
+		// per account the agreed chain carries consecutive nonces (C18 seen end to end): a gap means that a batch was
+		// lost although its successors were proposed
+		for i, a := range b.accts {
+			exp, ok := c.chainNonce[a]
+			if !ok {
+				exp = 0
+			}
+			switch {
+			case b.nonces[i] == exp:
+				c.chainNonce[a] = exp + 1
+			case b.nonces[i] > exp:
+				c.res.Count("diag_nonce_gap_in_agreed_chain")
+				if os.Getenv("VERIF_GAP_VIO") != "" {
+					c.vio("nonce-gap", "", "account %s: nonce %d delivered at height %d, the agreed chain has its nonces up to %d only", a[:8], b.nonces[i], b.height, exp)
+				}
+				if traceSteps {
+					c.res.Log.Logf("%d nonce gap: account %s nonce %d at height %d, expected %d", c.step, a[:8], b.nonces[i], b.height, exp)
+				}
+				c.chainNonce[a] = b.nonces[i] + 1
+			default:
+				c.res.Count("diag_nonce_repeat_in_agreed_chain")
+			}
+		}
 		seen := map[string]bool{}
 		for _, h := range b.txs {
 			if seen[h] {
@@ -803,7 +827,7 @@ func runCluster(cfg OConfig, seed uint64, res *sim.Result, tp *tape, base string
 	if cfg.Accounts < 1 {
 		cfg.Accounts = 1
 	}
-	c := &cluster{cfg: cfg, res: res, tp: tp, base: base, agreed: map[uint64]string{}, txHeight: map[string]uint64{}, lateTx: map[string]bool{}}
+	c := &cluster{cfg: cfg, res: res, tp: tp, base: base, agreed: map[uint64]string{}, txHeight: map[string]uint64{}, lateTx: map[string]bool{}, chainNonce: map[string]uint64{}}
 	c.net = &simNet{nodes: map[uint64]*onode{}, cut: map[[2]uint64]bool{}, seed: seed, stats: map[string]int64{}, pFail: 100}
 	for i := 0; i < cfg.Accounts; i++ {
 		b := make([]byte, 20)
